@@ -173,6 +173,7 @@ type bound struct {
 //	full      : names <= FullTokens (the rest)     x {file, dir, after-dir} x {abs, a} x {os, mem}, "." on mem
 //	long      : names <= MainTokens (the rest)     x {file, dir} x {abs, a} on mem; {file} x {abs, a} on os   (thorough)
 //	            names <= MainTokens (the rest)     x {file, dir} x abs x {os, mem}, a on mem                  (quick)
+//	extras    : six hand-picked longer names x {file, deflate, after-dir} x 7 forms x {os, mem} x {no limits, recursive}; nested
 //	deep      : deep sub-alphabet <= DeepTokens    x {file, dir, after-dir} x abs x {os, mem}, a on mem
 //	shapes    : variant names x {deflate, symlink, after-symlink} x {abs, a} x {os, mem}
 //	limits    : variant names x {file, dir} x {abs, a} x {os, mem} x {non-recursive limits, recursive limits}
@@ -209,6 +210,17 @@ func space(thorough bool) ([]*block, bound) {
 	}
 
 	longTargets := append(product([]string{destAbs}, "os", "mem"), target{destRel, "mem"})
+	// hand-picked names beyond the token bound: the escape confirmed in DESIGN.md section 5 (12 tokens), a three-level
+	// climb, and names for which ISO-2022-JP is TIED with a single-byte charset at the highest confidence (found by a
+	// search over the detector): whether such a name leaves the destination depends on who wins the tie.
+	extras := [][]byte{
+		[]byte("x/.\x1b(B./.\x1b(B./evil\xe9"),
+		[]byte("a/.\x1b(B./.\x1b(B./.\x1b(B./\xe9"),
+		[]byte(".\x1b(B./a.C:\xe9"),
+		[]byte(".\x1b(B./a/C:\xe9"),
+		[]byte(".\x1b(B./a\\C:\xe9"),
+		[]byte(".\x1b(B./a C:\xe9"),
+	}
 	blocks := []*block{
 		{id: "all-forms", names: allFormsNames, shapes: mainShapes, targets: product(all, "os", "mem"), destExists: true, limits: none},
 		{id: "full", names: fullNames, shapes: mainShapes, targets: append(product(absRel, "os", "mem"), target{destDot, "mem"}), destExists: true, limits: none},
@@ -221,6 +233,8 @@ func space(thorough bool) ([]*block, bound) {
 		blocks = append(blocks, &block{id: "long", names: longNames, shapes: fileDir, targets: longTargets, destExists: true, limits: none})
 	}
 	blocks = append(blocks,
+		&block{id: "extras", names: extras, shapes: []string{shapeFile, shapeDeflate, shapeAfterDir}, targets: product(all, "os", "mem"), destExists: true, limits: []string{limNone, limRecursive}},
+		&block{id: "extras-nested", names: extras, shapes: []string{shapeFile}, outers: [][]string{{".zip"}, {".zip", ".jar"}}, targets: product(absRel, "os", "mem"), destExists: true, limits: rec},
 		&block{id: "deep", names: deepNames, shapes: mainShapes, targets: longTargets, destExists: true, limits: none},
 		&block{id: "shapes", names: variantNames, shapes: []string{shapeDeflate, shapeSymlink, shapeAfterSymlink}, targets: product(absRel, "os", "mem"), destExists: true, limits: none},
 		&block{id: "limits", names: variantNames, shapes: fileDir, targets: product(absRel, "os", "mem"), destExists: true, limits: []string{limFlat, limRecursive}},
